@@ -156,6 +156,26 @@ def make_case(rnd, prop):
             if t["container"] and "limits" not in t and rnd.random() < 0.5:
                 t["limits"] = {rnd.choice(["dailymax", "weeklymax"]): rnd.choice([2, 3, 4, 5])}   # the limit sits on the container, the teams below it
         gen.equalize_teams(m)
+    if prop == "C10" and rnd.random() < 0.08:
+        # a roadmap: EVERY leaf is a pinned milestone (the scheduling loop has nothing to do), containers carry their own,
+        # wider dates - they still summarise their children (seeded change C10-e skipped the roll-up for an empty work list)
+        from datetime import timedelta as _td
+        for t in m["tasks"]:
+            if t["container"]:
+                t.pop("deps", None)
+                if rnd.random() < 0.6:
+                    t["start"] = m["start"]
+                if rnd.random() < 0.4:
+                    t["end"] = m["start"] + _td(days=13)
+            else:
+                for k in ("effort_min", "alloc", "alt", "deps", "limits", "end", "effort_inherited", "priority"):
+                    t.pop(k, None)
+                t["milestone"] = True
+                t["start"] = m["start"] + _td(days=rnd.randrange(1, 12), minutes=rnd.randrange(0, 24 * 60, m["res"]))
+            t.pop("c_effort_min", None)
+        m["alap"] = False
+        m["acyclic"] = gen.acyclic(m)
+        return "roadmap", m, mfree
     if prop == "C10":
         # shapes aimed at "containers and resource groups never occupy resource time"
         if m.get("groups") and rnd.random() < 0.35:
